@@ -160,7 +160,7 @@ func c02(r *core.Run) {
 	pinnedCallCensus(r, "R6.checker", "c03_linearity_edges", "sema", []string{
 		"checkConditionalBranches", "checkPotentiallyUnevaluated", "MergeBranches", "checkResourceLoss", "leaveValueScope",
 		"checkResourceMoveOperation", "recordResourceInvalidation", "checkResourceUseAfterInvalidation", "maybeAddResourceInvalidation",
-		"MaybeReturned", "MaybeJumped", "AddInvalidation", "RemoveTemporaryMoveInvalidation", "checkResourceFieldNesting",
+		"MaybeReturned", "MaybeJumped", "AddInvalidation", "RemoveTemporaryMoveInvalidation", "checkResourceFieldNesting", "checkUnusedExpressionResourceLoss",
 	}, "the checker would accept a program that loses or duplicates a resource; there is no run-time check behind it")
 	r.Floor("R6.checker", 50)
 }
